@@ -614,6 +614,56 @@ fn types_group(t: &mut Tasks) {
             }
         });
     }
+    // values around the pre-allocation bound (4096) of the bytes -> JSON direction, alone and
+    // followed by further data: strings, byte lists, lists, sets and maps with 4095 .. 8193 items
+    t.add(|ctx: &mut Ctx| {
+        for n in [4095usize, 4096, 4097, 4160, 8193] {
+            let text = "s".repeat(n);
+            let hexs = "5a".repeat(n);
+            let items: Vec<J> = (0..n).map(|i| json!(i % 251)).collect();
+            let pairs: Vec<J> = (0..n).map(|i| json!([i, i % 7])).collect();
+            let mut cases: Vec<(Type, J)> = vec![];
+            for sl in [SizeLength::U16, SizeLength::U32] {
+                cases.push((Type::String(sl), json!(text)));
+                cases.push((Type::ByteList(sl), json!(hexs)));
+                cases.push((Type::List(sl, Box::new(Type::U8)), J::Array(items.clone())));
+                cases.push((Type::Map(sl, Box::new(Type::U16), Box::new(Type::U8)), J::Array(pairs.clone())));
+            }
+            cases.push((Type::Set(SizeLength::U16, Box::new(Type::U16)), J::Array((0..n).map(|i| json!(i)).collect())));
+            for (inner, j) in cases {
+                for wrap in 0..3 {
+                    let (ty, val) = match wrap {
+                        0 => (inner.clone(), j.clone()),
+                        1 => (Type::Pair(Box::new(inner.clone()), Box::new(Type::U16)), json!([j, 513])),
+                        _ => (Type::Struct(Fields::Named(vec![("a".into(), inner.clone()), ("b".into(), Type::String(SizeLength::U8))])), json!({"a": j, "b": "tail"})),
+                    };
+                    ctx.evals += 1;
+                    let name = tname(&ty);
+                    let w = json!({"type": name, "items": n, "followed_by_data": wrap != 0});
+                    let res = mc_core::catch(|| {
+                        let b = ty.serial_value(&val).map_err(|e| format!("JSON -> bytes: {e}"))?;
+                        let mut want = vec![];
+                        ref_encode(&ty, &val, &mut want);
+                        if b != want {
+                            return Err("bytes differ from the contract-side encoding".to_string());
+                        }
+                        let mut cur = Cursor::new(&b[..]);
+                        let back = ty.to_json(&mut cur).map_err(|e| format!("bytes -> JSON: {e:?}"))?;
+                        if back != val || cur.offset != b.len() {
+                            return Err(format!("round trip differs (consumed {} of {})", cur.offset, b.len()));
+                        }
+                        Ok(())
+                    });
+                    ctx.traces += 1;
+                    match res {
+                        Ok(Ok(())) => ctx.outcome("long value: round trip ok", 1),
+                        Ok(Err(e)) => ctx.violation("json-round-trip-differs", &name, n, w, json!({"error": e.chars().take(300).collect::<String>()})),
+                        Err(p) => ctx.violation("converter-panicked", &name, n, w, json!({"panic": p})),
+                    }
+                }
+            }
+        }
+    });
     // nesting up to the claimed depth 32
     t.add(|ctx: &mut Ctx| {
         for depth in [1usize, 8, 31, 32] {
